@@ -1,5 +1,5 @@
 (* C06 — CheckTx accepts exactly the transactions DeliverTx accepts.  Theorems only. *)
-From Minter Require Import Base Ledger LedgerFacts LedgerTx LedgerProps LedgerExample.
+From Minter Require Import Base Consts Ledger LedgerFacts LedgerTx LedgerProps LedgerExample.
 From Coq Require Import ZArith List.
 Import ListNotations.
 Open Scope Z_scope.
@@ -21,6 +21,12 @@ Example C06_example :
   (* a free ticker / gas price 0: accepted by both (the defect repaired by f5184b1) *)
   check ex_state (mk_tx 11 1 (CreateToken 4242 7 true 3 1000 5000 true true)) = 0.
 Proof. vm_compute. repeat split. Qed.
+
+(* tie to the two ABCI entry points (regenerated from coreV2/minter/blockchain.go on every run): CheckTx and
+   DeliverTx hand the same block height, last committed height + 1, to the executor; the model's check and
+   deliver take one state and one transaction and therefore one height *)
+Example C06_entry_points_same_height : checktx_height_offset = delivertx_height_offset /\ delivertx_height_offset = 1.
+Proof. split; reflexivity. Qed.
 
 Print Assumptions C06_check_iff_deliver.
 Print Assumptions C06_ticker_branch_never_fails.
